@@ -5,7 +5,8 @@ import RtenVerif.Generated.GemmConsts
 /-! Line-protocol driver for C16 (`model_C16`).
 
 Header fields (both request kinds):
-`<kid> <mr> <nr> <threads> <M> <Ka> <Kb> <N> <outLen> <bias> <aIn> <bIn> <bRowStride1>`
+`<kid> <mr> <nr> <threads> <M> <Ka> <Kb> <N> <outLen> <bias> <aIn> <bIn> <bRowStride1> <aq> <bq>`
+* `aq`/`bq`: `n` | `q<len>` (zero-point vector passed for A / B)
 * `bias`: `n` | `r<len>` | `c<len>`
 * `aIn`: `u` | `p:<kid>:<mr>:<nr>` (prepacked with that kernel)
 * `bIn`: `u` | `o` (im2col) | `p:<kid>:<mr>:<nr>`
@@ -13,6 +14,9 @@ Header fields (both request kinds):
 `sched <betaClass z|o|x> <header>`       → kernel-call schedule (canonically sorted)
 `gemm <header> <alpha> <beta> | A | B | C | bias` → exact result over `Int`
    (`C` = `u` means uninitialised output memory).
+`pack a <mr> <rows> <cols> …` / `pack b <nr> <rows> <cols> …` (further words ignored)
+   → `len=<slots> stride=<panel stride> slots=<r.c|_,…> off=<offset of each block element, row-major>`
+   from `packASlots`/`packAOffset` resp. `packBSlots`/`packBOffset`.
 -/
 namespace RtenVerif.Driver.C16
 open RtenVerif.Driver RtenVerif.Gemm
@@ -36,22 +40,31 @@ def parseBias (w : String) : Option (Option Nat × Option Nat) :=
   else if w.startsWith "c" then do let l ← (w.drop 1).toString.toNat?; pure (none, some l)
   else none
 
+def parseQuant (w : String) : Option (Option Nat) :=
+  if w == "n" then some none
+  else if w.startsWith "q" then do let l ← (w.drop 1).toString.toNat?; pure (some l)
+  else none
+
 def parseHeader (ws : List String) : Option (KernelCfg × Problem) :=
   match ws with
-  | [kid, mr, nr, th, m, ka, kb, n, ol, bias, aIn, bIn, rs1] => do
+  | [kid, mr, nr, th, m, ka, kb, n, ol, bias, aIn, bIn, rs1, aq, bq] => do
     let kid ← kid.toNat?; let mr ← mr.toNat?; let nr ← nr.toNat?; let th ← th.toNat?
     let m ← m.toNat?; let ka ← ka.toNat?; let kb ← kb.toNat?; let n ← n.toNat?; let ol ← ol.toNat?
     let (rb, cb) ← parseBias bias
     let (ap, _) ← parsePacked aIn true ka
     let (bp, bo) ← parsePacked bIn false kb
+    let aql ← parseQuant aq
+    let bql ← parseQuant bq
     let kern : KernelCfg := { id := kid, mr := mr, nr := nr, elemSize := elemSize }
     pure (kern, { M := m, Ka := ka, Kb := kb, N := n, outLen := ol, rowBiasLen := rb, colBiasLen := cb,
+                  aQuantLen := aql, bQuantLen := bql,
                   aPacked := ap, bPacked := bp, bOther := bo, bRowStride1 := rs1 == "1", threads := th })
   | _ => none
 
 def errName : GemmErr → String
   | .kSizeMismatch => "err:KSizeMismatch"
   | .wrongBiasSize => "err:WrongBiasSize"
+  | .wrongQuantParamSize => "err:WrongQuantParamSize"
   | .outputSizeMismatch => "err:OutputSizeMismatch"
   | .packedDataKernelMismatch => "err:PackedDataKernelMismatch"
   | .packedDataBlockingMismatch => "err:PackedDataBlockingMismatch"
@@ -121,6 +134,26 @@ def handleGemm (hdr : List String) (rest : List String) : String :=
     | _, _, _, _ => "bad-request"
   | _ => "bad-request"
 
+def showSlot : Option (Nat × Nat) → String
+  | some (r, c) => s!"{r}.{c}"
+  | none => "_"
+
+def handlePack (ws : List String) : String :=
+  match ws with
+  | kind :: t :: rows :: cols :: _ =>
+    match t.toNat?, rows.toNat?, cols.toNat? with
+    | some t, some rows, some cols =>
+      let elems := (List.range rows).flatMap fun r => (List.range cols).map fun c => (r, c)
+      if kind == "a" then
+        let slots := packASlots t rows cols
+        s!"len={slots.length} stride={t * cols} slots={joinWith "," (slots.map showSlot)} off={showNats "," (elems.map fun e => packAOffset t cols e.1 e.2)}"
+      else if kind == "b" then
+        let slots := packBSlots t rows cols
+        s!"len={slots.length} stride={rows * t} slots={joinWith "," (slots.map showSlot)} off={showNats "," (elems.map fun e => packBOffset t rows e.1 e.2)}"
+      else "bad-request"
+    | _, _, _ => "bad-request"
+  | _ => "bad-request"
+
 def handle (line : String) : String :=
   match line.splitOn "|" with
   | [] => "bad-request"
@@ -128,6 +161,7 @@ def handle (line : String) : String :=
     match words h with
     | "sched" :: ws => handleSched ws
     | "gemm" :: ws => handleGemm ws rest
+    | "pack" :: ws => handlePack ws
     | _ => "bad-request"
 
 end RtenVerif.Driver.C16
